@@ -52,6 +52,7 @@ type c18Fail struct {
 
 // c18Sess is one session with its own model.
 type c18Sess struct {
+	rig      *Rig
 	s        *Sess
 	kind     string
 	n        int
@@ -71,7 +72,7 @@ func (c *c18Sess) fail(sig, clause, obs, exp string) *ev.Failure {
 }
 
 func newC18Sess(rig *Rig, kind string, n int, idx int, desc any) (*c18Sess, *ev.Failure) {
-	c := &c18Sess{kind: kind, n: n, idx: idx, desc: desc, open: map[string]bool{}, downOpen: map[string]bool{}, win: newWindow(n),
+	c := &c18Sess{rig: rig, kind: kind, n: n, idx: idx, desc: desc, open: map[string]bool{}, downOpen: map[string]bool{}, win: newWindow(n),
 		rejected: map[string]bool{}, events: map[string]*mocrelay.Event{}}
 	s, err := rig.Start()
 	if err != nil {
@@ -101,6 +102,21 @@ func (c *c18Sess) end() *ev.Failure {
 
 // do executes one operation of the session's script against its own model.
 func (c *c18Sess) do(op c18Op) *ev.Failure {
+	if op.Kind == "RESTART" {
+		// the connection goes away (without closing its subscriptions) and a new one
+		// starts on the same middleware: it must start from a clean slate
+		if err := c.s.End(); err != nil {
+			return c.fail("session-end", "the session ends", err.Error(), "")
+		}
+		s, err := c.rig.Start()
+		if err != nil {
+			return c.fail("session-start", "a new session starts", err.Error(), "")
+		}
+		c.s = s
+		c.open, c.downOpen, c.win, c.rejected = map[string]bool{}, map[string]bool{}, newWindow(c.n), map[string]bool{}
+		c.step++
+		return nil
+	}
 	s, kind, n := c.s, c.kind, c.n
 	step := c.step
 	c.step++
@@ -202,6 +218,11 @@ func (c *c18Sess) do(op c18Op) *ev.Failure {
 				case "a":
 					msg = mocrelay.NewServerEOSEMsg("s")
 				case "b":
+					// the downstream handler refuses an event that was forwarded earlier
+					msg = mocrelay.NewServerOKMsg(eventFor("a").ID, false, mocrelay.MachineReadablePrefixBlocked, "refused downstream")
+				case "e":
+					msg = mocrelay.NewServerOKMsg(eventFor("b").ID, false, "", "refused downstream")
+				case "d":
 					msg = mocrelay.NewServerOKMsg(eventFor("a").ID, true, "", "")
 				case "c":
 					msg = mocrelay.NewServerClosedMsg("s", "", "x")
@@ -263,13 +284,13 @@ func c18Case(t *rapid.T) (kind string, n int, scripts [][]c18Op, concurrent bool
 			lab := fmt.Sprintf("s%d.%d.", i, j)
 			switch kind {
 			case "quota":
-				op.Kind = rapid.SampledFrom([]string{"REQ", "REQ", "REQ", "CLOSE", "CLOSE", "COUNT", "EVENT", "SRV-OTHER"}).Draw(t, lab+"op")
+				op.Kind = rapid.SampledFrom([]string{"REQ", "REQ", "REQ", "REQ", "CLOSE", "CLOSE", "COUNT", "EVENT", "SRV-OTHER", "RESTART"}).Draw(t, lab+"op")
 				op.ID = rapid.SampledFrom(subIDs).Draw(t, lab+"id")
 			case "recvunique":
-				op.Kind = rapid.SampledFrom([]string{"EVENT", "EVENT", "EVENT", "EVENT", "REQ", "CLOSE", "SRV-EVENT"}).Draw(t, lab+"op")
+				op.Kind = rapid.SampledFrom([]string{"EVENT", "EVENT", "EVENT", "EVENT", "EVENT", "REQ", "CLOSE", "SRV-EVENT", "SRV-OTHER", "SRV-OTHER", "RESTART"}).Draw(t, lab+"op")
 				op.ID = rapid.SampledFrom(evIDs).Draw(t, lab+"id")
 			case "sendunique":
-				op.Kind = rapid.SampledFrom([]string{"SRV-EVENT", "SRV-EVENT", "SRV-EVENT", "SRV-EVENT", "SRV-OTHER", "EVENT", "REQ"}).Draw(t, lab+"op")
+				op.Kind = rapid.SampledFrom([]string{"SRV-EVENT", "SRV-EVENT", "SRV-EVENT", "SRV-EVENT", "SRV-EVENT", "SRV-OTHER", "EVENT", "REQ", "RESTART"}).Draw(t, lab+"op")
 				op.ID = rapid.SampledFrom(evIDs).Draw(t, lab+"id")
 			}
 			sc = append(sc, op)
@@ -302,7 +323,7 @@ func TestC18Stateful(t *testing.T) {
 				hx.Fail(t, *f)
 			}
 			sess[i] = c
-			defer c.s.End()
+			defer func() { c.s.End() }()
 		}
 		results := make([]*ev.Failure, len(scripts))
 		if concurrent {
